@@ -22,15 +22,16 @@ RULE = ("one evaluation = one line through FileAnonymizer.anonymize_io with all 
         "(or the stated subset); violation = any exception or a missing/extra output line; "
         "distinct_nontrivial = distinct lines that were changed by some stage (i.e. reached "
         "replacement code) plus distinct (salt, feature subset) configurations")
-ASSUMPTIONS = ["hostile alphabet of 19 symbols; stems listed in evidence",
+ASSUMPTIONS = ["hostile alphabet of 20 symbols; stems listed in evidence",
                "long runs up to 3000 characters"]
 
 ALPHA = ["\\", "$", "1", "9", "%", ":", ".", "[", '"', "'", " ", "f", "e", "8", "0", "(", "*",
-         "+", "é"]
+         "+", "é", "_"]
 STEMS = ["", "password ", "secret ", "snmp-server user ", "key ", "fe80:", "$1$", "$9$",
          "set community "]
 FILLERS = ["a\\b", "\\1", "\\g<1>", "$1$", "$1$123456789$x", "$1$$x", "$9$", "$9$!", "$9$abc",
-           "$6$", '"', "[", "\\", "$9$" + "Q" * 3, "$1$abc"]
+           "$6$", '"', "[", "\\", "$9$" + "Q" * 3, "$1$abc", "$9$ab_cdefghij", "$9$Be4EhyVb2GDékevYo",
+           "$9$aaaa٣", "$9$_aaaa", "$1$ab_$x", "$6$é", "٣٣.1.2.3", "1.2.3.٤", "fe80::٣"]
 FEATURES_ALL = dict(anon_pwd=True, anon_ip=True, sensitive_words=["seattle", "xyzzy"],
                     as_numbers=["65001", "12"], reserved_words=None)
 
@@ -86,7 +87,7 @@ class ShortStrings(Part):
                   "stem=" + case["stem"].strip())
             return res
         b = bounds(self.tier, self.seed)["short_strings"]
-        n = b["standalone"] if case["stem"] == "" else b["after_stem"]
+        n = b["standalone"] if case["stem"] in ("", "$9$", "$1$") else b["after_stem"]
         lines = [case["stem"] + case["first"]]
         for k in range(1, n):
             for p in itertools.product(ALPHA, repeat=k):
